@@ -175,7 +175,7 @@ theorem parseSheetMetadata_encode (off : Nat) (hoff : off < 4294967296) (vis : S
     simp [le32]
   have hu32 : Biff.u32 (le32 off ++ [byte (xlsVisCode vis + 64 * reserved), byte dt] ++ shortString us wide) = off := by
     rw [List.append_assoc]; exact u32_le32 off _ hoff
-  simp only [hlen5, hlen6, if_false, hb4, hb5, xlsVis_lookup, hkl, hdrop, hu32]
+  simp only [hlen6, if_false, hb4, hb5, xlsVis_lookup, hkl, hdrop, hu32]
   have := parseShortString_shortString us wide [] hlen hunits
   rw [List.append_nil] at this
   rw [this]
@@ -250,10 +250,15 @@ theorem parseLbl_enc (pd : Bytes → Res (Option Nat × Text)) (us : List Nat) (
     have h1 : (1 + (encUnits wide us).length) = ((if wide then (1 : UInt8) else 0) :: encUnits wide us).length := by simp; omega
     rw [← List.cons_append, h1, List.drop_left' rfl]
   unfold parseLblWith
-  have hl6 : ¬ ((encodeLbl us wide itab rgce).length < 6) := by rw [hlen]; omega
-  have hl14 : ¬ ((encodeLbl us wide itab rgce).length < 14) := by rw [hlen]; omega
-  have hlc : ¬ ((encodeLbl us wide itab rgce).length < rgce.length) := by rw [hlen]; omega
-  simp only [hl6, hl14, if_false, hb3, hcce, hd14, readNoCch_enc us wide rgce h2, hlc, hdr]
+  have hl15 : ¬ ((encodeLbl us wide itab rgce).length < 15) := by rw [hlen]; omega
+  have hb14 : byteAt (encodeLbl us wide itab rgce) 14 % 2 = 1 ↔ wide = true := by
+    rw [hshape]; cases wide <;> simp [byteAt, le16]
+  have hnl : (if byteAt (encodeLbl us wide itab rgce) 14 % 2 = 1 then 2 * us.length else us.length) = (encUnits wide us).length := by
+    rw [encUnits_length]
+    cases wide <;> simp [hb14]
+  have hlc : ¬ ((encodeLbl us wide itab rgce).length < max (15 + (encUnits wide us).length) rgce.length) := by
+    rw [hlen]; omega
+  simp only [hl15, if_false, hb3, hcce, hnl, hlc, hd14, readNoCch_enc us wide rgce h2, hdr]
   unfold pdValue
   cases hp : pd rgce with
   | ok r => rfl
@@ -283,7 +288,7 @@ theorem xtiLoop_enc : ∀ (x : List (Nat × Nat × Nat)), (∀ e ∈ x, e.1 < 65
     have hd6 : (le16 e.1 ++ (le16 e.2.1 ++ (le16 e.2.2 ++ es.flatMap xtiBytes))).drop 6 = es.flatMap xtiBytes := by simp [le16]
     have hd2 : (le16 e.1 ++ (le16 e.2.1 ++ (le16 e.2.2 ++ es.flatMap xtiBytes))).drop 2 = le16 e.2.1 ++ (le16 e.2.2 ++ es.flatMap xtiBytes) := by
       simp [le16]
-    simp only [hne, hl6, if_false, hd6, ih', hd2, i16_le16 _ h2, Bool.false_eq_true, List.map_cons]
+    simp only [hl6, if_false, hd6, ih', hd2, i16_le16 _ h2, List.map_cons]
 
 theorem parseExternSheet_enc (x : List (Nat × Nat × Nat)) (h1 : x.length < 65536)
     (h2 : ∀ e ∈ x, e.1 < 65536 ∧ e.2.1 < 65536 ∧ e.2.2 < 65536) :
@@ -918,6 +923,7 @@ theorem loop_skip_body (q : String) (depth : Nat) : ∀ (body : List Ev), ExtOk 
       rw [xlsxLoopWith]; simp only [hn, if_false]; exact ih hes rest _ rfl
     | text t => rw [xlsxLoopWith] <;> first | exact ih hes rest _ rfl | simp
     | other => rw [xlsxLoopWith] <;> first | exact ih hes rest _ rfl | simp
+    | cdata t => rw [xlsxLoopWith] <;> first | exact ih hes rest _ rfl | simp
 
 theorem loop_skip_end (q : String) (rest : List Ev) (sh : List (Sheet String × List Char)) (nm : List (String × String)) (d : Bool)
     (cur : Option (String × String × String)) :
@@ -945,22 +951,32 @@ theorem loop_sheets (cfg : XlsxCfg) (rels : List (String × String)) (q : String
     rw [ih hss]
     simp [List.append_assoc]
 
-theorem loop_texts (cfg : XlsxCfg) (rels : List (String × String)) :
-    ∀ (chunks : List String) (rest : List Ev) (sh : List (Sheet String × List Char)) (nm : List (String × String)) (d : Bool)
+theorem loop_cdata_in (cfg : XlsxCfg) (rels : List (String × String)) (hc : cfg.cdataNames = true) (t : String) (rest : List Ev)
+    (sh : List (Sheet String × List Char)) (nm : List (String × String)) (d : Bool) (name q val : String) :
+    xlsxLoopWith cfg rels (.cdata t :: rest) ⟨sh, nm, d, some (name, q, val), none⟩ =
+      xlsxLoopWith cfg rels rest ⟨sh, nm, d, some (name, q, val ++ t), none⟩ := by
+  rw [xlsxLoopWith] <;> simp [hc]
+
+/-- text and CDATA sections contribute alike to the text of a defined name -/
+theorem loop_texts (cfg : XlsxCfg) (rels : List (String × String)) (hc : cfg.cdataNames = true) :
+    ∀ (chunks : List (Bool × String)) (rest : List Ev) (sh : List (Sheet String × List Char)) (nm : List (String × String)) (d : Bool)
       (name q val : String),
-      xlsxLoopWith cfg rels (chunks.map Ev.text ++ rest) ⟨sh, nm, d, some (name, q, val), none⟩ =
-      xlsxLoopWith cfg rels rest ⟨sh, nm, d, some (name, q, chunks.foldl (· ++ ·) val), none⟩ := by
+      xlsxLoopWith cfg rels (chunks.map chunkEv ++ rest) ⟨sh, nm, d, some (name, q, val), none⟩ =
+      xlsxLoopWith cfg rels rest ⟨sh, nm, d, some (name, q, chunks.foldl (fun acc c => acc ++ c.2) val), none⟩ := by
   intro chunks
   induction chunks with
   | nil => intros; rfl
   | cons c cs ih =>
     intro rest sh nm d name q val
-    simp only [List.map_cons, List.cons_append, List.foldl_cons]
-    rw [loop_text_in, ih]
+    obtain ⟨b, t⟩ := c
+    simp only [List.map_cons, List.cons_append, List.foldl_cons, chunkEv]
+    cases b with
+    | true => simp only [if_true]; rw [loop_cdata_in cfg rels hc, ih]
+    | false => simp only [Bool.false_eq_true, if_false]; rw [loop_text_in, ih]
 
 theorem loop_names (cfg : XlsxCfg) (rels : List (String × String)) (q : String → String) (hq : QOk q)
-    (hpm : cfg.prMatch (q "definedName") = false) :
-    ∀ (names : List (String × List String)) (rest : List Ev) (sh : List (Sheet String × List Char))
+    (hpm : cfg.prMatch (q "definedName") = false) (hc : cfg.cdataNames = true) :
+    ∀ (names : List (String × List (Bool × String))) (rest : List Ev) (sh : List (Sheet String × List Char))
       (nm : List (String × String)) (d : Bool),
       xlsxLoopWith cfg rels (names.flatMap (definedNameEvents q) ++ rest) ⟨sh, nm, d, none, none⟩ =
       xlsxLoopWith cfg rels rest ⟨sh, nm ++ names.map dnValue, d, none, none⟩ := by
@@ -971,7 +987,7 @@ theorem loop_names (cfg : XlsxCfg) (rels : List (String × String)) (q : String 
     intro rest sh nm d
     simp only [List.flatMap_cons, definedNameEvents, List.cons_append, List.nil_append, List.append_assoc]
     rw [loop_start_dn cfg rels _ _ _ _ _ _ n.1 hpm (hq "definedName") (by simp [List.lookup])]
-    rw [loop_texts, loop_end_in, ih]
+    rw [loop_texts cfg rels hc, loop_end_in, ih]
     simp [List.append_assoc, dnValue]
 
 theorem pm_q (q : String → String) (hq : QOk q) (s : String) : cfgNow.prMatch (q s) = (s == "workbookPr") := by
@@ -1059,6 +1075,7 @@ theorem ods_table_body : ∀ (body : List Ev), (∀ e ∈ body, e ≠ Ev.end_ "t
     | start n a => rw [odsLoop] <;> first | exact ih hes rest sh nm sty sn | simp
     | text t => rw [odsLoop] <;> first | exact ih hes rest sh nm sty sn | simp
     | other => rw [odsLoop] <;> first | exact ih hes rest sh nm sty sn | simp
+    | cdata t => rw [odsLoop] <;> first | exact ih hes rest sh nm sty sn | simp
 
 theorem ods_table (styles0 : List (String × Option Bool)) (t : OTable) (ht : t.ok) (rest : List Ev) (sh : List (Sheet String))
     (nm : List (String × String)) (sn : Option String) :
